@@ -16,15 +16,20 @@ the repaired `_spawn`) whenever something moves back into its reach.
 * `C03_deliverGo_spec`: the top-down walk of the code does exactly that (pure, under `WF`/`BW`).
 * `C03_delivery_live`: the invariant finding F4 violated, for every reachable state.
 * `C03_deliver_hits` / `C03_deliver_reschedules`: what one `.run (.deliver o)` does.
-* `C03_cycle`, `C03_chkif`, `C03_latency_partial`.
+* `C03_cycle`, `C03_chkif`, `C03_latency_partial`; `C03_latency`, `C03_two_cycles` (sections 7, 8).
 
-`active` is part of `reachDown`: the code walks `children`, which holds active scopes only, and
-"every ancestor of an active scope is active" is not among the established invariants of the model
-(`WF` keeps the weak form only); tasks sit in active scopes in every run of the real code.
+`active` is part of `reachDown`: the code walks `children`, which holds active scopes only.
+"Every ancestor of an active scope is active, and every scope that holds a task is active" is the
+invariant `C03_ancestors_active` (section 7, `Kernel/DeliverInv11.lean` .. `DeliverInv16.lean`); with
+it, "a blocked task has no `_must_cancel`" (`C03_blocked_no_must_cancel`) and "a scheduled `deliver o`
+callback implies `cancelCalled o`" (`C03_deliver_handle_cancelled`, `Kernel/DeliverInv8.lean` ..
+`DeliverInv10.lean`) the latency statement holds at full strength: `C03_latency`, `C03_two_cycles`
+(composition over runs: `Kernel/DeliverInv17.lean` .. `DeliverInv23.lean`).
 
-Invariant and lemmas: `Kernel/DeliverInv.lean` .. `DeliverInv7.lean`.
+Invariant and lemmas: `Kernel/DeliverInv.lean` .. `DeliverInv23.lean`.
 -/
 import AnyioModel.Kernel.DeliverInv7
+import AnyioModel.Kernel.DeliverInv23
 import AnyioModel.Kernel.CountInv5
 
 namespace AnyioModel.Kernel
@@ -312,18 +317,18 @@ theorem C03_chkif_enter {st st' : State} {out : Out}
 which task `t` is `.blocked f` in a scope `c` with `effCancelled st c`, after the events of that
 cycle (all of `cur` run) `t` is `.woken f` with a cancelled future.
 
-Proved below (`C03_latency_partial`): the two links the bound consists of.  (a) In every reachable
-state, if `t` is blocked in a scope reached from an active cancelled scope `o`, a `deliver o`
-callback is in the batch of this cycle or scheduled for the next.  (b) When that callback runs and
-`t` is still blocked there, `t` is `woken f`, `f` is cancelled with the scope's message and
-`wakeup t` is scheduled for the next cycle (`C03_cycle`: it runs before any later cycle begins,
-and `resumeValue` of a task woken on a cancelled future is the cancellation).
-Missing for the full statement: (1) the passage from `effCancelled st c` to `∃ o, reachDown st o c`
-with `o` active and cancelled needs "every ancestor of an active scope is active", which is not
-among the established invariants of the model; (2) the composition over an arbitrary interleaving
-of the other callbacks of the cycle (each of them keeps `t` blocked in `c` or wakes/moves it
-itself) is not carried out; (3) "a blocked task has no `_must_cancel`" (`Task.__step` consumes it
-before suspending, `blockOn`) is taken as the hypothesis `hm` rather than derived. -/
+`C03_latency_partial` below: the two links the bound consists of, for a given origin `o` and under
+the hypothesis `hm`.  (a) In every reachable state, if `t` is blocked in a scope reached from an
+active cancelled scope `o`, a `deliver o` callback is in the batch of this cycle or scheduled for the
+next.  (b) When that callback runs and `t` is still blocked there, `t` is `woken f`, `f` is cancelled
+with the scope's message and `wakeup t` is scheduled for the next cycle (`C03_cycle`: it runs before
+any later cycle begins, and `resumeValue` of a task woken on a cancelled future is the cancellation).
+The three things it leaves open are closed in sections 7 and 8: (1) the passage from
+`effCancelled st c` to an active cancelled origin `o` with `reachDown st o c` is `C03_origin` (from
+`C03_ancestors_active`); (2) the composition over an arbitrary interleaving of the other
+transitions is `C03_two_cycles` (with `C03_cancel_delivers_at_once`, `C03_origin_stable`,
+`C03_deliver_stays_in_batch`); (3) `hm` is `C03_blocked_no_must_cancel`.  The full statement is
+`C03_latency` + `C03_two_cycles`. -/
 theorem C03_latency_partial {st : State} (hr : Reach st) {o c t f : Nat}
     (ha : (st.scopes o).active = true) (hc : (st.scopes o).cancelCalled = true)
     (hrd : reachDown st o c) (ht : t ∈ (st.scopes c).tasks)
@@ -343,6 +348,154 @@ theorem C03_latency_partial {st : State} (hr : Reach st) {o c t f : Nat}
   obtain ⟨h1, h2, h3⟩ := ((C03_deliver_hits hr hs t).1 hh).2.1 f hb
   refine ⟨h1, h2, h3, ?_⟩
   simp [resumeValue, h1, h2]
+
+/-! ### 7. the three invariants behind the latency bound -/
+
+/-- **C03_ancestors_active.**  In every reachable state: the parent of an active scope is active;
+a scope that holds a task (`_tasks`) is active; hence every scope on the chain of a scope that
+holds a task is active.  (A task group leaves its scope only when `task_done` has run for every
+child, and every other scope holds only its host; `Kernel/DeliverInv11.lean` .. `16`.) -/
+theorem C03_ancestors_active {st : State} (hr : Reach st) :
+    (∀ c p, (st.scopes c).active = true → (st.scopes c).parent = some p →
+      (st.scopes p).active = true) ∧
+    (∀ c t, t ∈ (st.scopes c).tasks → (st.scopes c).active = true) ∧
+    (∀ c t, t ∈ (st.scopes c).tasks → ∀ x ∈ (st.scopes c).chain, (st.scopes x).active = true) := by
+  have h := (xi_reach hr).1
+  have w := wf_reach hr
+  exact ⟨h.a1, h.a2, fun c t ht => chain_active w h _ c rfl (h.a2 c t ht)⟩
+
+/-- **C03_done_hosts_nothing.**  In every reachable state a task that is done hosts no scope, and a
+task hosts no scope above its task-handle scope. -/
+theorem C03_done_hosts_nothing {st : State} (hr : Reach st) {s u : Nat}
+    (hh : (st.scopes s).host = some u) : (st.tasks u).st ≠ .done :=
+  (xi_reach hr).1.a5 s u hh
+
+/-- **C03_origin.**  In every reachable state an effectively cancelled scope that holds a task is
+reached by the delivery of an active, cancelled scope: the first cancelled scope on its chain. -/
+theorem C03_origin {st : State} (hr : Reach st) {c t : Nat} (ht : t ∈ (st.scopes c).tasks)
+    (he : effCancelled st c = true) :
+    ∃ o, (st.scopes o).active = true ∧ (st.scopes o).cancelCalled = true ∧ reachDown st o c := by
+  have h := (xi_reach hr).1
+  exact origin_of_effCancelled (wf_reach hr) h _ c rfl (h.a2 c t ht) he
+
+/-- **C03_blocked_no_must_cancel.**  In every reachable state a blocked task has no `_must_cancel`:
+`Task.cancel()` on a blocked task cancels the future it waits for instead of setting the flag, and
+`Task.__step` consumes the flag before it suspends the task. -/
+theorem C03_blocked_no_must_cancel {st : State} (hr : Reach st) {t f : Nat}
+    (hb : (st.tasks t).st = .blocked f) : (st.tasks t).mustCancel = false :=
+  (dbn_reach hr).2.1 t f hb
+
+/-- **C03_deliver_handle_cancelled.**  In every reachable state a scheduled `deliver o` callback
+(in the batch of this cycle or of the next) belongs to a scope on which `cancel()` was called. -/
+theorem C03_deliver_handle_cancelled {st : State} (hr : Reach st) {o : Nat}
+    (hm : Handle.deliver o ∈ st.ready ++ st.cur) : (st.scopes o).cancelCalled = true :=
+  (dbn_reach hr).1 o hm
+
+/-- **C03_deliver_stays_in_batch.**  A `deliver o` callback of the current batch stays in the batch
+under every transition other than the loop running it (a new cycle cannot begin before, by
+`C03_cycle`). -/
+theorem C03_deliver_stays_in_batch {st st' : State} {e : Ev} {out : Out} {o : Nat} (hr : Reach st)
+    (hs : step st e = some (st', out)) (ho : Handle.deliver o ∈ st.cur)
+    (he : e ≠ .run (.deliver o)) : Handle.deliver o ∈ st'.cur :=
+  step_keeps_deliver hr hs ho he
+
+/-! ### 8. latency at full strength -/
+
+/-- **C03_latency.**  In every reachable state: if scope `c` is effectively cancelled and task `t`
+of `c` is blocked on `f`, then there is an active cancelled scope `o` whose delivery reaches `c`, a
+`deliver o` callback is in the batch of this cycle or scheduled for the next, and when the loop runs
+it `t` is `woken f`, `f` is cancelled with the scope's message, `wakeup t` is scheduled for the next
+cycle, and what `Task.__wakeup` will throw into the coroutine is the AnyIO cancellation. -/
+theorem C03_latency {st : State} (hr : Reach st) {c t f : Nat}
+    (he : effCancelled st c = true) (ht : t ∈ (st.scopes c).tasks)
+    (hb : (st.tasks t).st = .blocked f) :
+    ∃ o, (st.scopes o).active = true ∧ (st.scopes o).cancelCalled = true ∧ reachDown st o c ∧
+      Handle.deliver o ∈ st.ready ++ st.cur ∧
+      ∀ st' out, step st (.run (.deliver o)) = some (st', out) →
+        (st'.tasks t).st = .woken f ∧ st'.futs f = .cancelled true ∧
+          Handle.wakeup t ∈ st'.ready ∧ resumeValue st' t = .one .cancelAnyio := by
+  obtain ⟨o, ha, hc, hrd⟩ := C03_origin hr ht he
+  have := C03_latency_partial hr ha hc hrd ht hb (C03_blocked_no_must_cancel hr hb)
+  exact ⟨o, ha, hc, hrd, this.1, this.2⟩
+
+/-- **C03_deliver_enabled.**  The callback of `C03_latency` can run as soon as it is in the current
+batch and no task is running. -/
+theorem C03_deliver_enabled {st : State} {o : Nat} (hm : Handle.deliver o ∈ st.cur)
+    (hrun : st.running = none) : ∃ st', step st (.run (.deliver o)) = some (st', .none) := by
+  simp [step, hrun, hm]
+
+/-- **C03_one_cycle.**  Let `t` be blocked on `f` in scope `c`, reached by the delivery of the
+active cancelled scope `o`, and let this stay so (`Reached o c t f`) in every state of a run `es`
+from a reachable state.  If the `deliver o` callback is in the current batch, no new loop cycle
+begins in `es`; in general at most one does. -/
+theorem C03_one_cycle {st st' : State} {es : List Ev} {o c t f : Nat} (hr : Reach st)
+    (hrun : runFrom step st es = some st') (ha : Along (Reached o c t f) st es) :
+    nCycles es ≤ 1 ∧ (Handle.deliver o ∈ st.cur → nCycles es = 0) :=
+  ⟨reached_at_most_one_cycle es st st' hr hrun ha, reached_no_cycle es st st' hr hrun ha⟩
+
+/-- **C03_cancel_delivers_at_once.**  No transition cancels a scope and leaves a task blocked within
+its reach, and no transition moves a blocked task into the reach of a cancelled scope: if `t` is
+blocked on `f` before and after a transition (other than un-shielding a scope) from a reachable
+state, and afterwards sits in a scope `c` reached by the delivery of an active cancelled scope `x`,
+then `x` was cancelled, active and reaching `c` before.  (`cancel()` calls
+`_deliver_cancellation` itself.) -/
+theorem C03_cancel_delivers_at_once {st st' : State} {e : Ev} {out : Out} {t f c x : Nat}
+    (hr : Reach st) (hs : step st e = some (st', out)) (hne : ∀ s, e ≠ .setShield s false)
+    (hb : (st.tasks t).st = .blocked f) (hb' : (st'.tasks t).st = .blocked f)
+    (ht' : t ∈ (st'.scopes c).tasks) (hc : (st'.scopes x).cancelCalled = true)
+    (ha : (st'.scopes x).active = true) (hrd : reachDown st' x c) :
+    (st.scopes x).cancelCalled = true ∧ (st.scopes x).active = true ∧ reachDown st x c ∧
+      t ∈ (st.scopes c).tasks := by
+  have q := qr_step (c := c) hr hb hs hne
+  have hsc : (stepPre st e).scopes = st.scopes := by cases e <;> rfl
+  obtain ⟨c1, a1, r1⟩ := q.sit hb' ht' x hc ha hrd
+  have hm := q.mem hb' ht'
+  rw [hsc] at c1 a1 hm
+  exact ⟨c1, a1, reachDown_congr (fun y => by rw [hsc]; exact ⟨rfl, rfl, rfl, rfl⟩) r1, hm⟩
+
+/-- **C03_origin_stable.**  The origin of `C03_origin` is unique, and it does not change along a
+transition before and after which `t` is blocked on `f` in the effectively cancelled scope `c`. -/
+theorem C03_origin_stable {st st' : State} {e : Ev} {out : Out} {t f c o o' : Nat} (hr : Reach st)
+    (hs : step st e = some (st', out)) (h : Stuck t f c st) (h' : Stuck t f c st')
+    (ho : Origin st o c) (ho' : Origin st' o' c) : o' = o :=
+  origin_stable hr hs h h' ho ho'
+
+/-- **C03_two_cycles.**  Bounded latency over arbitrary event lists.  Let `Stuck t f c` — task `t`
+is blocked on `f` in scope `c`, and `c` is effectively cancelled — hold in every state of a run
+`es` from a reachable state.  Then at most one new loop cycle begins in `es`; and none at all if
+the `deliver` callback of the origin is already in the current batch.  (The callback that
+`C03_delivery_live` keeps scheduled sits in the batch of the current cycle or of the next one; it
+leaves a batch only by being run; a new cycle begins only when the batch is empty; running it wakes
+`t`; and the origin does not change while `t` is stuck, `C03_origin_stable`.) -/
+theorem C03_two_cycles {st st' : State} {es : List Ev} {t f c : Nat} (hr : Reach st)
+    (hrun : runFrom step st es = some st') (ha : Along (Stuck t f c) st es) :
+    nCycles es ≤ 1 ∧
+    (∀ o, Origin st o c → Handle.deliver o ∈ st.cur → nCycles es = 0) :=
+  ⟨stuck_at_most_one_cycle es st st' hr hrun ha, stuck_no_cycle es st st' hr hrun ha⟩
+
+/-- **C03_two_cycles_interrupted.**  The same, read forwards: from a reachable state in which `t`
+is blocked on `f` in the effectively cancelled scope `c`, every run in which two new loop cycles
+begin passes — before the second one has begun — through a state in which `t` is no longer
+blocked on `f`, or `c` is no longer effectively cancelled (somebody shielded it, which is the only
+way: `cancelCalled` is never reset). -/
+theorem C03_two_cycles_interrupted {st st' : State} {es : List Ev} {t f c : Nat} (hr : Reach st)
+    (hrun : runFrom step st es = some st') (h2 : 2 ≤ nCycles es) :
+    ∃ es1 es2 st1, es = es1 ++ es2 ∧ runFrom step st es1 = some st1 ∧
+      ((st1.tasks t).st ≠ .blocked f ∨ t ∉ (st1.scopes c).tasks ∨ effCancelled st1 c = false) := by
+  have hn : ¬ Along (Stuck t f c) st es := by
+    intro hal
+    have := stuck_at_most_one_cycle es st st' hr hrun hal
+    omega
+  obtain ⟨es1, es2, st1, he, hr1, hs1⟩ := (not_along_iff hrun).mp hn
+  refine ⟨es1, es2, st1, he, hr1, ?_⟩
+  by_cases h1 : (st1.tasks t).st = .blocked f
+  · by_cases h3 : t ∈ (st1.scopes c).tasks
+    · right; right
+      cases h4 : effCancelled st1 c
+      · rfl
+      · exact absurd ⟨h1, h3, h4⟩ hs1
+    · exact .inr (.inl h3)
+  · exact .inl h1
 
 /-! ### non-vacuity -/
 
@@ -425,5 +578,106 @@ example :
     (runFrom step init
       [.mkScope false none, .enter 0, .cancel 0, .chkIfCancelled, .beginCycle 0,
        .beginCycle 0]).isNone = true := by decide
+
+/-- `C03_latency` / `C03_two_cycles`, the plain history: the root task enters scope 0, the scope is
+cancelled while its host runs (the delivery finds the running host and reschedules itself), the
+host blocks on a future.  The state the theorems talk about: blocked, no `_must_cancel`
+(`C03_blocked_no_must_cancel`), scope effectively cancelled and active
+(`C03_ancestors_active`), `deliver 0` scheduled and `cancelCalled` (`C03_deliver_handle_cancelled`). -/
+example :
+    (runFrom step init
+      [.mkScope false none, .enter 0, .cancel 0, .mkFut, .awaitFut 0]).map
+      (fun st => ((st.tasks 0).st, (st.tasks 0).mustCancel, effCancelled st 0,
+        (st.scopes 0).active && (st.scopes 0).cancelCalled, st.ready)) =
+      some (.blocked 0, false, true, true, [.deliver 0]) := by decide
+
+/-- ... first new cycle: the callback is in the batch and wakes the task; a second cycle cannot
+begin before it has run (`C03_one_cycle`: `nCycles = 0` once the callback is in `cur`) ... -/
+example :
+    (runFrom step init
+      [.mkScope false none, .enter 0, .cancel 0, .mkFut, .awaitFut 0, .beginCycle 0,
+       .run (.deliver 0)]).map
+      (fun st => ((st.tasks 0).st, st.futs 0, st.ready, resumeValue st 0)) =
+      some (.woken 0, .cancelled true, [.wakeup 0, .deliver 0], .one .cancelAnyio) := by decide
+
+example :
+    (runFrom step init
+      [.mkScope false none, .enter 0, .cancel 0, .mkFut, .awaitFut 0, .beginCycle 0,
+       .beginCycle 0]).isNone = true ∧
+    nCycles [.beginCycle 0, .run (.deliver 0), .beginCycle 0] = 2 := by decide
+
+/-- ... second cycle: the task is resumed with the AnyIO cancellation. -/
+example :
+    (traceFrom step init
+      [.mkScope false none, .enter 0, .cancel 0, .mkFut, .awaitFut 0, .beginCycle 0,
+       .run (.deliver 0), .beginCycle 0, .run (.wakeup 0)]).map
+      (fun p => (p.2.getLast?, p.1.running)) =
+      some (some (.resumed (.one .cancelAnyio)), some 0) := by decide
+
+/-- Why `C03_two_cycles` asks for `effCancelled` in every state of the run and not only at its
+start: the path from the origin (scope 0) down to the task's scope (scope 1) is cut by
+`scope1.shield = True` before the delivery runs; scope 1 is no longer effectively cancelled, the
+delivery does not reach the task, and it stays blocked over any number of cycles — correctly
+(the last alternative of `C03_two_cycles_interrupted`). -/
+example :
+    (runFrom step init
+      [.mkScope false none, .enter 0, .mkScope false none, .enter 1, .cancel 0, .mkFut,
+       .awaitFut 0, .setShield 1 true, .beginCycle 0, .run (.deliver 0), .beginCycle 0,
+       .beginCycle 0]).map
+      (fun st => ((st.tasks 0).st, effCancelled st 1, effCancelled st 0, (st.scopes 0).deliver)) =
+      some (.blocked 0, false, true, false) := by decide
+
+/-- `C03_blocked_no_must_cancel`, the other half: `_must_cancel` set while the task runs
+(`task.cancel()` from outside) is consumed by `Task.__step` when the task suspends — the future is
+cancelled instead and the task is `woken`, never `blocked` with the flag set. -/
+example :
+    (runFrom step init [.nativeCancel 0, .mkFut, .awaitFut 0]).map
+      (fun st => ((st.tasks 0).st, (st.tasks 0).mustCancel, st.futs 0, st.ready)) =
+      some (.woken 0, false, .cancelled false, [.wakeup 0]) := by decide
+
+/-- `C03_ancestors_active` on a task group: the child (task 1) sits in its handle scope (scope 1),
+whose parent is the group scope (scope 0) hosted by the root task; while the child is alive
+`__aexit__` waits (in scope 2) and scope 0 stays active; after `task_done` the group scope is left
+and nothing holds a task any more. -/
+example :
+    (runFrom step init
+      [.mkGroup, .groupEnter 0, .spawn 0, .aexit 0 .none, .beginCycle 0, .run (.step 1)]).map
+      (fun st => ((st.scopes 1).parent, (st.scopes 1).active && (st.scopes 0).active,
+        (st.scopes 1).tasks, (st.scopes 2).tasks, (st.scopes 0).tasks)) =
+      some (some 0, true, [1], [0], []) := by decide
+
+example :
+    (runFrom step init
+      [.mkGroup, .groupEnter 0, .spawn 0, .aexit 0 .none, .beginCycle 0, .run (.step 1),
+       .finish .none, .beginCycle 0, .run (.taskDone 1), .beginCycle 0, .run (.wakeup 0)]).map
+      (fun st => ((st.scopes 0).active, (st.scopes 1).active, (st.scopes 2).active,
+        (st.scopes 0).tasks, (st.groups 0).exited)) =
+      some (false, false, false, [], true) := by decide
+
+/-- The bound of `C03_two_cycles` is tight: one new cycle can begin while the task is still stuck
+(the callback was scheduled in the previous cycle and now sits in the batch) ... -/
+example :
+    (runFrom step init
+      [.mkScope false none, .enter 0, .cancel 0, .mkFut, .awaitFut 0, .beginCycle 0]).map
+      (fun st => ((st.tasks 0).st, effCancelled st 0, st.cur, nCycles [Ev.beginCycle 0])) =
+      some (.blocked 0, true, [.deliver 0], 1) := by decide
+
+/-- `C03_cancel_delivers_at_once`: the child (task 1) is blocked in `sleep` inside its handle scope
+(scope 1) below the group scope (scope 0); `cancel()` on the group scope wakes it in the same
+transition — it is never blocked within the reach of a scope that has just been cancelled. -/
+example :
+    (runFrom step init
+      [.mkGroup, .groupEnter 0, .spawn 0, .yield, .beginCycle 0, .run (.step 1), .sleep 5,
+       .run (.step 0)]).map
+      (fun st => ((st.tasks 1).st, (st.scopes 0).cancelCalled, effCancelled st 1)) =
+      some (.blocked 0, false, false) := by decide
+
+example :
+    (runFrom step init
+      [.mkGroup, .groupEnter 0, .spawn 0, .yield, .beginCycle 0, .run (.step 1), .sleep 5,
+       .run (.step 0), .cancel 0]).map
+      (fun st => ((st.tasks 1).st, (st.scopes 0).cancelCalled, effCancelled st 1, st.futs 0,
+        st.ready)) =
+      some (.woken 0, true, true, .cancelled true, [.wakeup 1, .deliver 0]) := by decide
 
 end AnyioModel.Kernel
